@@ -549,6 +549,7 @@ ssize_t read(int fd, void *buf, size_t n)
 			errno = EAGAIN;
 			return -1;
 		}
+		sx_note("k:eventfd-read", (long)e->counter);
 		*(uint64_t *)buf = e->counter;
 		e->counter = 0;
 		sx_hb_acq(e);
@@ -631,6 +632,7 @@ ssize_t write(int fd, const void *buf, size_t n)
 		}
 		sx_hb_rel(e);
 		e->counter += v;
+		sx_note("k:eventfd-write", fd);
 		return 8;
 	}
 	case K_PIPE_W: {
@@ -977,6 +979,7 @@ again:
 			wi->pfds[kr.idx[i]].revents = (short)kr.rev[i];
 	}
 out:
+	sx_note("k:wait-returns", kr.n);
 	if (kr.n == 0 && wi->epfd < 0) {
 		/* poll() writes every revents field, also when nothing is ready */
 		for (i = 0; i < wi->nfds; i++)
